@@ -2,7 +2,7 @@
    (run cfg init ops), with the invariants discharged. *)
 From Coq Require Import List ZArith Bool Lia ZifyBool.
 From Model Require Import Txn.
-From Proofs Require Import TxnBase TxnFoot TxnFrame TxnInv TxnExpire TxnCommit TxnSpec.
+From Proofs Require Import TxnBase TxnFoot TxnFrame TxnInv TxnExpire TxnCommit TxnSpec TxnFresh.
 Import ListNotations.
 Open Scope Z_scope.
 
@@ -149,3 +149,8 @@ Proof.
   intros cfg ops s. unfold step. cbn [run_op]. unfold txn_begin, bind, gets, modify, ret, raise. cbn.
   destruct (tobs s); reflexivity.
 Qed.
+
+Lemma fresh_history_proof :
+  forall (cfg : config) (ops : list op),
+    hist_ok cfg init ops = true -> par_fresh (run cfg init ops) = true.
+Proof. intros cfg ops H. apply fresh_history. exact H. Qed.
